@@ -258,6 +258,17 @@ func runC04(w *core.World, r *core.Report) {
 			}
 			_, calls := moverSet(region)
 			up := calls["Up"]
+			entry := core.Entry(d)
+			scope := d
+			// the case body moved into a helper of package vm: look at the ascent there
+			if up != nil && !core.IsCallTo(up, stUp) {
+				if g := core.StaticCallee(up); g != nil && len(g.Blocks) > 0 {
+					if ups := core.CallsTo(g, stUp); len(ups) == 1 {
+						up, entry, scope = ups[0], core.Entry(g), g
+						region = g.Blocks
+					}
+				}
+			}
 			var topCall *ssa.Call
 			for _, b := range region {
 				for _, in := range b.Instrs {
@@ -275,8 +286,8 @@ func runC04(w *core.World, r *core.Report) {
 					if tv != nil {
 						cut.AddEdge(core.EdgesWhere(tv, false)...)
 					}
-					in, path := core.Reach(core.Entry(d), core.IsInstr(up.(ssa.Instruction)), cut)
-					r.Check(in == nil && tv != nil, "R6", core.QName(d)+": '_' at the entry node", up.Pos(), "Up only behind Top()==false", "Up can be reached without the Top()==false edge: "+w.PathString(path))
+					in, path := core.Reach(entry, core.IsInstr(up.(ssa.Instruction)), cut)
+					r.Check(in == nil && tv != nil, "R6", core.QName(d)+": '_' at the entry node", up.Pos(), "Up only behind Top()==false", "Up can be reached without the Top()==false edge in "+core.QName(scope)+": "+w.PathString(path))
 				}
 			}
 		}
